@@ -90,6 +90,16 @@ def c6 (i : Inst) : Bool :=
       | some s => r.tsEnd ≤ s.tsStart
       | none => false) → i.sched.any fun c => c.v == r.v)
 
+/-- the vertices c6 owes a slot and that have none (empty iff `c6`; reported so that the harness can say which) -/
+def c6Missing (i : Inst) : List Vtx :=
+  if i.prune then [] else
+  (i.verts.filter fun r =>
+    !(r.v.kind == i.sup) &&
+    ((List.range i.parts).any fun p =>
+      match i.row? ⟨i.sup, p⟩ with
+      | some s => r.tsEnd ≤ s.tsStart
+      | none => false) && !(i.sched.any fun c => c.v == r.v)).map (·.v)
+
 /-- c7: within one generation of one partition no two runnable cells have the same kind (per-kind overwrite of the executor) -/
 def c7 (i : Inst) : Bool :=
   i.sched.all fun c => i.sched.all fun c' => (c.kind == c'.kind && c.part == c'.part && c.gen == c'.gen) → c.slot == c'.slot
